@@ -18,6 +18,9 @@ var Registry = map[string]func(seed int64) *engine.Check{
 	"C12": func(int64) *engine.Check { return C12() },
 	"C13": func(int64) *engine.Check { return C13() },
 	"C14": func(int64) *engine.Check { return C14() },
+	"C17": func(int64) *engine.Check { return C17() },
+	"C18": func(int64) *engine.Check { return C18() },
+	"C19": func(int64) *engine.Check { return C19() },
 	"C15": func(int64) *engine.Check { return C15() },
 }
 
